@@ -171,12 +171,19 @@ func (a *sessionAwareAdapter) Broadcast(header *parser.PacketHeader, v []any, op
 		id := a.yeaster.Yeast()
 		v = append(v, id)
 
+		// Encoding a packet transforms its header (EVENT becomes BINARY_EVENT) and its values
+		// (binary values become placeholders) in place. The log keeps the packet as it is now,
+		// in order to be able to encode it again when it is sent to a recovered session.
+		_header := *header
+		data := make([]any, len(v))
+		copy(data, v)
+
 		packet := &PersistedPacket{
-			Header:    header,
+			Header:    &_header,
 			ID:        id,
 			Opts:      opts,
 			EmittedAt: time.Now(),
-			Data:      v,
+			Data:      data,
 		}
 		a.packets = append(a.packets, packet)
 	}
